@@ -211,12 +211,15 @@ struct Case {
 };
 
 // category "rev": the library's reverse_iterator<pointer> as the iterator type of the range.  Position k
-// of the (reversed) view of A corresponds to the base pointer A.l() - k.
+// of the (reversed) view of A (or B) corresponds to the base pointer A.l() - k.
 static Case* g_case = nullptr;
 template <typename T>
 static T* vh_mirror(T* p)
 {
-    return g_case->A.l() - (p - g_case->A.f());
+    auto& A = g_case->A;
+    auto& B = g_case->B;
+    if (p >= A.d && p < A.d + (PAD + CAP + PAD)) { return A.l() - (p - A.f()); }
+    return B.l() - (p - B.f());
 }
 template <typename T>
 static T* base(lib::reverse_iterator<T*> const& it)
@@ -936,6 +939,17 @@ static bool partitioned_k(std::vector<int> const& k, int c)
 static sigjmp_buf g_jmp;
 static int g_hung = 0;
 static void on_alarm(int) { siglongjmp(g_jmp, 1); }
+// a fault inside the library call (e.g. an algorithm running off its range) is recorded as an event
+// ("hang":2, judged as kind "crash"), the rest of the group is abandoned and the next group is run
+static void on_fault(int) { siglongjmp(g_jmp, 2); }
+static void install_handlers()
+{
+    std::signal(SIGVTALRM, on_alarm);
+    std::signal(SIGSEGV, on_fault);
+    std::signal(SIGBUS, on_fault);
+    std::signal(SIGFPE, on_fault);
+    std::signal(SIGILL, on_fault);
+}
 
 static std::string g_out;
 static void put_arr(char const* key, std::vector<int> const& v)
@@ -977,20 +991,24 @@ static void run_case(Alg const& alg, Run const& run, std::vector<int> const& ka,
     } else {
         x.rev  = std::strcmp(run.cat, "rev") == 0;
         g_case = &x;
-        x.A.set(x.rev ? std::vector<int>(x.a.rbegin(), x.a.rend()) : x.a), x.B.set(x.b), x.D.blanks(dl), x.D2.blanks(dl);
+        x.A.set(x.rev ? std::vector<int>(x.a.rbegin(), x.a.rend()) : x.a);
+        x.B.set(x.rev ? std::vector<int>(x.b.rbegin(), x.b.rend()) : x.b), x.D.blanks(dl), x.D2.blanks(dl);
     }
     std::memset(g_touch, 0, sizeof g_touch);
     // watchdog: an algorithm that does not return within VH_HANG_SECONDS on a <= 6 element input is
     // recorded as a "hang" event (judged by the trace specification); the rest of the group is abandoned
     g_hung = 0;
-    if (sigsetjmp(g_jmp, 1) == 0) {
+    int jr = sigsetjmp(g_jmp, 1);
+    if (jr == 0) {
         // CPU time, not wall-clock: a heavily loaded machine must not turn a slow schedule into a "hang"
         struct itimerval tv_on{{0, 0}, {VH_HANG_SECONDS, 0}}, tv_off{{0, 0}, {0, 0}};
         setitimer(ITIMER_VIRTUAL, &tv_on, nullptr);
         run.fn(x);
         setitimer(ITIMER_VIRTUAL, &tv_off, nullptr);
     } else {
-        g_hung = 1;
+        g_hung = jr;
+        struct itimerval tv_stop{{0, 0}, {0, 0}};
+        setitimer(ITIMER_VIRTUAL, &tv_stop, nullptr);
         x.r.clear();
     }
     g_out.clear();
@@ -1015,7 +1033,9 @@ static void run_case(Alg const& alg, Run const& run, std::vector<int> const& ka,
         auto oa = codes(x.A);
         if (x.rev) { std::reverse(oa.begin(), oa.end()); }
         put_arr("oa", oa);
-        put_arr("ob", codes(x.B));
+        auto ob = codes(x.B);
+        if (x.rev) { std::reverse(ob.begin(), ob.end()); }
+        put_arr("ob", ob);
         put_arr("od", x.used_d ? codes(x.D) : std::vector<int>{});
         put_arr("oc", x.used_d2 ? codes(x.D2) : std::vector<int>{});
         ok = x.A.intact() && x.B.intact() && x.D.intact() && x.D2.intact();
@@ -1027,7 +1047,7 @@ static void run_case(Alg const& alg, Run const& run, std::vector<int> const& ka,
     }
     put_arr("p", p);
     g_out += ok ? ",\"cz\":1" : ",\"cz\":0";
-    g_out += g_hung ? ",\"hang\":1}\n" : "}\n";
+    g_out += g_hung == 0 ? "}\n" : g_hung == 1 ? ",\"hang\":1}\n" : ",\"hang\":2}\n";
     std::fwrite(g_out.data(), 1, g_out.size(), stdout);
     std::fflush(stdout);
 }
@@ -1108,7 +1128,7 @@ int main(int argc, char** argv)
             }
             return k;
         };
-        std::signal(SIGVTALRM, on_alarm);
+        install_handlers();
         std::printf("{\"op\":\"#replay\",\"inst\":\"-\"}\n");
         bool found = false;
         for (auto const& a : table()) {
@@ -1127,7 +1147,7 @@ int main(int argc, char** argv)
         std::fprintf(stderr, "usage: algo_driver list | run <domain> <op|op/cat,...|all>\n");
         return 2;
     }
-    std::signal(SIGVTALRM, on_alarm);
+    install_handlers();
     Domain dom      = read_domain(argv[2]);
     std::string sel = std::string(",") + argv[3] + ",";
     bool all        = std::strcmp(argv[3], "all") == 0;
